@@ -414,6 +414,38 @@ fn dot_preprocess_case() -> Vec<String> {
     verdict
 }
 
+fn degenerate_build_case<D0: crate::Distance>(name: &'static str) -> Vec<String> {
+    // 40 all-zero vectors and 40 NaN vectors (dimension 2, 2 trees) must build within a minute
+    let (tx, rx) = std::sync::mpsc::channel::<Vec<String>>();
+    std::thread::spawn(move || {
+        let mut verdict = vec![];
+        for (label, value) in [("all-zero", 0.0f32), ("NaN", f32::NAN)] {
+            let dir = tempfile::tempdir().unwrap();
+            let env = unsafe { EnvOpenOptions::new().map_size(200 * 1024 * 1024).open(dir.path()) }.unwrap();
+            let mut wtxn = env.write_txn().unwrap();
+            let db: Database<D0> = env.create_database(&mut wtxn, None).unwrap();
+            let w = Writer::<D0>::new(db, 0, 2);
+            for i in 0..40u32 {
+                w.add_item(&mut wtxn, i, &[value, value]).unwrap();
+            }
+            let mut rng = StdRng::seed_from_u64(0);
+            let r = std::panic::catch_unwind(std::panic::AssertUnwindSafe(|| {
+                w.builder(&mut rng).n_trees(2).build(&mut wtxn).map_err(|e| e.to_string())
+            }));
+            match r {
+                Err(_) => verdict.push(format!("building 40 {label} vectors under {name} panicked")),
+                Ok(Err(e)) => verdict.push(format!("building 40 {label} vectors under {name} failed: {e}")),
+                Ok(Ok(())) => {}
+            }
+        }
+        let _ = tx.send(verdict);
+    });
+    match rx.recv_timeout(std::time::Duration::from_secs(60)) {
+        Ok(v) => v,
+        Err(_) => vec![format!("building 40 degenerate vectors under {name} did not finish within 60 s")],
+    }
+}
+
 #[test]
 fn verif_replay() {
     let path = std::env::var("VERIF_SCENARIO").expect("VERIF_SCENARIO");
@@ -684,6 +716,12 @@ fn run_one(text: &str) {
             }
             "dot_preprocess" => {
                 verdict.extend(dot_preprocess_case());
+            }
+            "degenerate_build" => {
+                use crate::distance::{BinaryQuantizedCosine, Cosine, DotProduct};
+                verdict.extend(degenerate_build_case::<Cosine>("cosine"));
+                verdict.extend(degenerate_build_case::<DotProduct>("dot-product"));
+                verdict.extend(degenerate_build_case::<BinaryQuantizedCosine>("binary quantized cosine"));
             }
             "budget_equiv" => {
                 // leaving the budget unset with oversampling=o must equal search_k = count * n_trees * o
